@@ -36,8 +36,8 @@ def print_assumptions(c, names):
 
 
 def run(c):
-    c.rule = ("shutdown scenarios against sarama.MockBrokers (producer idle/mid-request/silent/retry+back-off/unreachable; partition "
-              "consumer idle/mid-fetch/silent/redispatch/leader loss/slow reader/offset out of range; group join/join+sync retry/"
+    c.rule = ("shutdown scenarios against sarama.MockBrokers (producer idle/mid-request/silent/retry+back-off/unreachable/failing with a slow reader; partition "
+              "consumer idle/mid-fetch/silent/redispatch/leader loss/siblings on one worker with a leaderless child/slow reader/offset out of range; group join/join+sync retry/"
               "running/rebalance/no coordinator/silent join; offset manager idle/marking/commit in flight/failing/silent; client "
               "background refresh/held/down; broker open/never/refused) x random parameters (messages, partitions, buffer sizes, "
               "Return.Errors, retry counts, shared client) x Close or AsyncClose injected at the k-th observable event (quick: first, "
@@ -51,9 +51,9 @@ def run(c):
              "Close of one object sequentially, and closes in the documented order")
     c.assume("network calls return (the harness gives every connection 250 ms timeouts); timer events after the close are finitely "
              "many (fuel parameter of the models, arbitrary)")
-    c.assume("per component: one partition consumer per broker worker, one topic/partition per producer, non-idempotent producer "
-             "(the idempotent retry-exhaustion hang is finding C01); reference counting for any number of holders is the separate "
-             "model Refs.v")
+    c.assume("per component: the partition-consumer LTS has one child per broker worker (sharing = model Refs.v for any number of "
+             "holders + c12_worker_refcount: each child follows Refs' holder protocol; on the code: scenario family 'siblings'), one "
+             "topic/partition per producer, non-idempotent producer")
     if not c.coq_make():
         return
     ok, names = c.coq_properties()
